@@ -439,11 +439,23 @@ type WriterResult struct {
 // RunWriter executes a program against an upstream. perCall bounds each call (watchdog).
 func RunWriter(up *iscp.Upstream, writer int, ops []Op, perCall time.Duration, counter *int) WriterResult {
 	var res WriterResult
+	// all points of this writer live in one backing array and every call passes a sub-slice of it whose capacity reaches into
+	// the region of the later calls - ordinary Go usage ("pts[a:b]" of a batch). A library that keeps or appends to the caller's
+	// slice instead of copying it then overwrites points of later writes (seeded change C01/m1), which the ledger oracle sees.
+	total := 0
+	for _, op := range ops {
+		if op.Kind == "write" {
+			total += len(op.Sizes)
+		}
+	}
+	arena := make([]*message.DataPoint, total)
+	off := 0
 	for i, op := range ops {
 		switch op.Kind {
 		case "write":
 			id := DataID(op.ID)
-			pts := make([]*message.DataPoint, len(op.Sizes))
+			pts := arena[off : off+len(op.Sizes)]
+			off += len(op.Sizes)
 			rec := Accepted{Writer: writer, ID: *id}
 			for j, sz := range op.Sizes {
 				*counter++
